@@ -829,7 +829,8 @@ pub fn main(args: &[String]) -> i32 {
     director::LOG_HOOKS.store(1, Ordering::SeqCst);
     crate::ALLOC_WATCH.store(true, Ordering::SeqCst);
     let rt = crate::sig::rtmin();
-    let pool_sigs = vec![libc::SIGUSR1, libc::SIGUSR2, rt + 1, rt + 2, rt + 3, libc::SIGHUP];
+    // the lowest and the highest signal number belong to the pool (slot 1 and the last slot of the scan)
+    let pool_sigs = vec![libc::SIGUSR1, libc::SIGUSR2, rt + 1, rt + 2, rt + 3, libc::SIGHUP, libc::SIGRTMAX()];
     for s in pool_sigs.iter() {
         unsafe { signal_hook_registry::register_sigaction(*s, witness) }.expect("witness register");
     }
